@@ -510,3 +510,13 @@ Definition svg_max_opt (l : list N) : option N :=
 
 (* BTreeMap<String, String>::insert as the translated code calls it (map first) *)
 Definition svg_btree_insert (m : list (list N * list N)) (k v : list N) : list (list N * list N) := svg_map_insert k v m.
+
+(* the width arithmetic of render_svg over the oracle: `max_width` (the widest line, fragment widths summed),
+   the f64 product, std::cmp::max with min_width_px, the padding on both sides.  This is the value the
+   translated code hands to [svg_print] as its [width_px] argument. *)
+Definition svg_width_px (o : svg_oracle) (styled_lines : list (list (sstyle * list N))) : N :=
+  let max_width := match svg_max_opt (map (fun l => svg_sum (map (fun '(_, tx) => svg_o_uw o tx) l)) styled_lines) with
+                   | Some m => m
+                   | None => 0
+                   end in
+  N.max (svg_o_ceil84 o max_width) (svg_o_min_width o) + svg_padding * 2.
